@@ -23,6 +23,9 @@ ASSUMPTIONS = ['only boolean-valued or failing conditions are in the alphabet (t
 
 PROGRAM = '''
 G = 41
+x = 999
+acc = -5
+lst = 'module-level lst'
 uuid = 'host-uuid'
 Dict = 'host-Dict'
 class Boom(Exception):
